@@ -351,7 +351,11 @@ func (rp *Report) Explore(it *Item) {
 			cost += p.Cost(p.Chosen)
 		}
 	}
+	e0, t0, c0 := rp.Execs, time.Now(), rp.CapsHit["clock_cap"]+rp.CapsHit["step_cap"]
 	rec(nil, nil, 0)
+	if os.Getenv("VERIF_ITEMLOG") != "" {
+		fmt.Fprintf(os.Stderr, "ITEM %-100s execs=%-8d caps=%d %.1fs\n", it.Name, rp.Execs-e0, rp.CapsHit["clock_cap"]+rp.CapsHit["step_cap"]-c0, time.Since(t0).Seconds())
+	}
 }
 
 func sameFailures(a, b []Failure) bool {
